@@ -9,7 +9,8 @@ VARIANT="${1:-plain}"; shift || true
 TARGETS="${*:-archive_static}"
 VERIF="$(cd "$(dirname "$0")/.." && pwd)"
 REPO="${VERIF_REPO:-/repo}"
-B="$VERIF/.cache/build-$VARIANT"
+if [ "$REPO" = "/repo" ]; then TAG=""; else TAG="-$(echo -n "$REPO" | sha1sum | cut -c1-8)"; fi
+B="$VERIF/.cache/build-$VARIANT$TAG"
 mkdir -p "$VERIF/.cache"
 case "$VARIANT" in
   plain) CFLAGS_X="-O1 -g -DLIBARCHIVE_VERIF_HOOKS" ;;
@@ -17,7 +18,7 @@ case "$VARIANT" in
   tsan)  CFLAGS_X="-O1 -g -fsanitize=thread -DLIBARCHIVE_VERIF_HOOKS" ;;
   *) echo "unknown variant $VARIANT" >&2; exit 2 ;;
 esac
-exec 9>"$VERIF/.cache/build-$VARIANT.lock"
+exec 9>"$VERIF/.cache/build-$VARIANT$TAG.lock"
 flock 9
 if [ ! -f "$B/build.ninja" ]; then
   rm -rf "$B"
